@@ -280,6 +280,8 @@ def run_property(pid, tier, seed, jobs, replay=None):
         for res in it:
             for case, out in res:
                 run.record(case, out)
+                if hasattr(drv, "collect"):
+                    drv.collect(run, case, out)   # cross-case aggregation for finish()
     finally:
         if pool is not None:
             pool.terminate()
